@@ -55,6 +55,7 @@ class C05(Spec):
     variant = "plain"
     shard = 25
     timeout = 900
+    env = {"PV_CASE_TIMEOUT": "30"}
     rule = ("P: fixed-length responses from a live endpoint (status codes of every class, Server/Location headers with "
             "separators in their values, 0-3 cookies, bodies of 0, 1, 511-513, 1023-1025, 2047-2049, 4095-4097 bytes, i.e. "
             "around every doubling of the 512-byte buffer) with the maximum response size set to rendered size -1, +0, +1 "
@@ -63,11 +64,15 @@ class C05(Spec):
             "C strings, partly filled char arrays, chars, bools, signed and unsigned integers around every digit-count boundary, flushes, a small buffer). Compared with the model's rendering (header lines sorted) and read back by an "
             "independent decoder: one status line with the code, each header and cookie once, Content-Length = body "
             "length / chunks decode to the data written and end with a zero chunk, reported size = bytes emitted, "
-            "over-cap responses rejected with nothing emitted. non-trivial = case with a body; distinct by case line")
+            "over-cap responses rejected with nothing emitted; V: on one connection with a 4 kB receive buffer a 8-32 MB response that blocks, then a file served with Http::serveFile (header + sendfile), then a short response: read back as three contiguous well-formed messages. non-trivial = case with a body; distinct by case line")
     assumptions = ["the handler's promise outcome is observed for at most 2 s", "a streamed chunk that does not fit the response buffer raises an error in the handler (not exercised: what the peer then sees is an unfinished message)"]
 
     def gen(self, rng, tier):
         cases = []
+        # a file served (header + sendfile) behind a blocked response, the answer to the next pipelined request behind it:
+        # every response must arrive as one contiguous, well-formed message (fixed 016e851)
+        for big, kb, gap in ([(24, 512, 300), (8, 3000, 100)] if tier == "quick" else [(24, 512, 300), (16, 64, 200), (8, 3000, 100), (32, 1, 500), (12, 10000, 50)]):
+            cases.append("V %d %d %d" % (big, kb, gap))
         sizes = [0, 1, 2, 100, 511, 512, 513, 1023, 1024, 1025, 2047, 2048, 2049, 4095, 4096, 4097, 10000]
         n = 140 if tier == "quick" else 2500
         for _ in range(n):
@@ -134,6 +139,12 @@ class C05(Spec):
         if impl.startswith(("CRASH", "HANG")):
             return "wire harness %s on %s" % (impl, case[:200])
         t = case.split(); o = impl.split()
+        if t[0] == "V":
+            f = dict(x.split("=") for x in o[1:])
+            if f["n"] != "3" or f["ok"] != "1":
+                return ("responses on one connection (a large one that blocks, a served file, a short one) did not arrive as three "
+                        "contiguous well-formed messages with their own bodies: %s (%s)" % (impl, case))
+            return None
         if t[0] == "P":
             code, cap = int(t[1]), int(t[2])
             srv = pv.unhex(t[3]) if t[3] != "-" else None
@@ -209,6 +220,8 @@ class C05(Spec):
         return not case.endswith(" -")
 
     def kind(self, case, impl):
+        if case[0] == "V":
+            return "V-file-behind-blocked-response"
         return case.split()[0] + "-" + (impl.split()[1] if case[0] == "P" and len(impl.split()) > 1 else "stream")
 
 
@@ -221,7 +234,7 @@ def replay(obj):
     case = obj["case"]
     exe = pv.build_harness(s.harness, s.variant)
     drv = pv.build_model_driver()
-    i, _ = pv.run_parallel([exe], [case])
+    i, _ = pv.run_parallel([exe], [case], env=s.env)
     m, _ = pv.run_parallel([drv, s.area], [case])
     print("case :", case[:300]); print("impl :", i[0][:300]); print("model:", m[0][:300])
     w = s.oracle(case, i[0])
